@@ -448,10 +448,14 @@ func (r *Reader) metaSeq(moltype, id []byte) (seq.Sequence, error) {
 	for {
 		line, err = r.r.ReadBytes('\n')
 		if err != nil {
-			if err == io.EOF {
+			if err != io.EOF {
+				return nil, &csv.ParseError{Line: r.line, Err: err}
+			}
+			if len(line) == 0 {
 				return nil, err
 			}
-			return nil, &csv.ParseError{Line: r.line, Err: err}
+			// The last line is not newline terminated.
+			err = nil
 		}
 		r.line++
 		line = bytes.TrimSpace(line)
@@ -495,10 +499,14 @@ func (r *Reader) Read() (f feat.Feature, err error) {
 	for {
 		line, err = r.r.ReadBytes('\n')
 		if err != nil {
-			if err == io.EOF {
+			if err != io.EOF {
+				return nil, &csv.ParseError{Line: r.line, Err: err}
+			}
+			if len(line) == 0 {
 				return f, err
 			}
-			return nil, &csv.ParseError{Line: r.line, Err: err}
+			// The last line is not newline terminated.
+			err = nil
 		}
 		r.line++
 		line = bytes.TrimSpace(line)
